@@ -75,6 +75,14 @@ func valueBytes(id int) []byte {
 	if id%3 == 1 {
 		out[0] = 0 // NUL, invalid UTF-8 follows
 	}
+	switch id { // values that end in (or are nothing but) line ends: nobody may trim them
+	case 13:
+		out = append(out, '\n')
+	case 14:
+		out = append(out, '\r', '\n')
+	case 15:
+		out = []byte("\n")
+	}
 	return out
 }
 
@@ -94,7 +102,7 @@ func valueToken(b []byte, max int) uint64 {
 	return corruptToken
 }
 
-const maxValueToken = 12
+const maxValueToken = 15
 
 // ---- observation ----
 
